@@ -31,6 +31,9 @@ struct Case {
     /// moves played before the search, with one search before each of them, all sharing one
     /// context and one generator (as `Game` does)
     history: Vec<Move>,
+    /// every position one move away has already been registered twice (a game inside a repetition
+    /// cycle: whatever is played completes a threefold repetition)
+    successors_seen_twice: bool,
 }
 
 fn check_case(c: &Case, pools: &[(usize, rayon::ThreadPool)]) -> (Option<Violation>, &'static str) {
@@ -38,9 +41,20 @@ fn check_case(c: &Case, pools: &[(usize, rayon::ThreadPool)]) -> (Option<Violati
     for _ in 0..c.registered {
         board.count_current_position();
     }
+    if c.successors_seen_twice {
+        for m in c.pos.legal_moves() {
+            let im = crate::walk::impl_move_from_model(&m, c.pos.stm);
+            im.apply(&mut board).expect("successor apply");
+            board.toggle_turn();
+            board.count_current_position();
+            board.count_current_position();
+            board.toggle_turn();
+            im.undo(&mut board).expect("successor undo");
+        }
+    }
     let mut ctx = SearchContext::new(c.depth);
     let mut g = MoveGenerator::new();
-    let extra = json!({"kind": "c07", "fen": c.pos.to_fen(), "depth": c.depth, "pool": c.pool, "registered": c.registered, "history": c.history.iter().map(uci).collect::<Vec<_>>()});
+    let extra = json!({"kind": "c07", "fen": c.pos.to_fen(), "depth": c.depth, "pool": c.pool, "registered": c.registered, "successors_seen_twice": c.successors_seen_twice, "history": c.history.iter().map(uci).collect::<Vec<_>>()});
     // the searches made earlier in the game with the same context (their answers are judged too)
     let mut cur = c.pos.clone();
     for (i, m) in c.history.iter().enumerate() {
@@ -116,13 +130,18 @@ pub fn cases(tier: &str) -> (Vec<Case>, serde_json::Value) {
             if d == 4 && root.legal_moves().len() > 25 {
                 continue;
             }
-            cases.push(Case { pos: root.clone(), depth: d, pool: 0, class: "seed-root", registered: 0, history: vec![] });
+            cases.push(Case { pos: root.clone(), depth: d, pool: 0, class: "seed-root", registered: 0, history: vec![], successors_seen_twice: false });
         }
         for pool in [1usize, 2, 3, 8, 16, 64] {
             if !thorough && pool == 64 && !matches!(*name, "startpos" | "krk" | "mated") {
                 continue;
             }
-            cases.push(Case { pos: root.clone(), depth: 2, pool, class: "seed-root-pool", registered: 0, history: vec![] });
+            cases.push(Case { pos: root.clone(), depth: 2, pool, class: "seed-root-pool", registered: 0, history: vec![], successors_seen_twice: false });
+        }
+        if !root.legal_moves().is_empty() {
+            for d in [1u8, 2] {
+                cases.push(Case { pos: root.clone(), depth: d, pool: 0, class: "all-successors-already-seen-twice", registered: 1, history: vec![], successors_seen_twice: true });
+            }
         }
         seen.insert(canon(&root));
         // every state within `near` plies (first 6 seeds in quick; all in thorough)
@@ -142,7 +161,7 @@ pub fn cases(tier: &str) -> (Vec<Case>, serde_json::Value) {
                 for n in &next {
                     nearby += 1;
                     for d in if thorough { vec![1u8, 2, 3] } else { vec![1u8, 2] } {
-                        cases.push(Case { pos: n.clone(), depth: d, pool: 0, class: "near-seed", registered: 0, history: vec![] });
+                        cases.push(Case { pos: n.clone(), depth: d, pool: 0, class: "near-seed", registered: 0, history: vec![], successors_seen_twice: false });
                     }
                 }
                 frontier = next;
@@ -177,11 +196,16 @@ pub fn cases(tier: &str) -> (Vec<Case>, serde_json::Value) {
                 if counts[i] < cap && !seen.contains(&canon(&p)) {
                     counts[i] += 1;
                     for dd in [0u8, 1, 2, 3] {
-                        cases.push(Case { pos: p.clone(), depth: dd, pool: 0, class: nm, registered: 0, history: vec![] });
+                        cases.push(Case { pos: p.clone(), depth: dd, pool: 0, class: nm, registered: 0, history: vec![], successors_seen_twice: false });
+                    }
+                    if !l.is_empty() {
+                        for dd in [1u8, 2] {
+                            cases.push(Case { pos: p.clone(), depth: dd, pool: 0, class: "all-successors-already-seen-twice", registered: 2, history: vec![], successors_seen_twice: true });
+                        }
                     }
                     if counts[i] <= 3 {
                         for pool in [1usize, 3, 64] {
-                            cases.push(Case { pos: p.clone(), depth: 2, pool, class: nm, registered: 0, history: vec![] });
+                            cases.push(Case { pos: p.clone(), depth: 2, pool, class: nm, registered: 0, history: vec![], successors_seen_twice: false });
                         }
                     }
                 }
@@ -202,13 +226,13 @@ pub fn cases(tier: &str) -> (Vec<Case>, serde_json::Value) {
             let mut p = base.clone();
             p.halfmove = half;
             for d in [1u8, 2] {
-                cases.push(Case { pos: p.clone(), depth: d, pool: 0, class: "half-move-clock-near-or-past-100", registered: 0, history: vec![] });
+                cases.push(Case { pos: p.clone(), depth: d, pool: 0, class: "half-move-clock-near-or-past-100", registered: 0, history: vec![], successors_seen_twice: false });
                 drawn_cases += 1;
             }
         }
         for reg in [1u8, 2, 3] {
             for d in [1u8, 2] {
-                cases.push(Case { pos: base.clone(), depth: d, pool: 0, class: "position-registered-up-to-three-times", registered: reg, history: vec![] });
+                cases.push(Case { pos: base.clone(), depth: d, pool: 0, class: "position-registered-up-to-three-times", registered: reg, history: vec![], successors_seen_twice: false });
                 drawn_cases += 1;
             }
         }
@@ -238,7 +262,7 @@ pub fn cases(tier: &str) -> (Vec<Case>, serde_json::Value) {
         }
         for h in paths {
             for d in [1u8, 2] {
-                cases.push(Case { pos: root.clone(), depth: d, pool: 0, class: "game-with-reused-context", registered: 0, history: h.clone() });
+                cases.push(Case { pos: root.clone(), depth: d, pool: 0, class: "game-with-reused-context", registered: 0, history: h.clone(), successors_seen_twice: false });
                 hist_cases += 1;
             }
         }
@@ -323,7 +347,7 @@ pub fn run(a: &Args) -> i32 {
     rep.bounds = bounds;
     rep.rule = "state = (position, depth, pool size); each is one call of the real alpha_beta_search with a brand-new context and generator on a board built for the position; the answer is compared with the model's legal-move set and the declared errors; full snapshot of the caller's board before/after".into();
     rep.assumptions = vec!["generators created during these runs use a reduced LRU capacity (hook); answers of a correct cache do not depend on capacity".into(), "a call is considered hung after 600 s".into()];
-    rep.mandatory = vec!["outcome_move".into(), "outcome_depth-too-low".into(), "class_checkmated".into(), "class_stalemated".into(), "class_single-legal-move".into(), "class_half-move-clock-near-or-past-100".into(), "class_position-registered-up-to-three-times".into(), "class_game-with-reused-context".into()];
+    rep.mandatory = vec!["outcome_move".into(), "outcome_depth-too-low".into(), "class_checkmated".into(), "class_stalemated".into(), "class_single-legal-move".into(), "class_half-move-clock-near-or-past-100".into(), "class_position-registered-up-to-three-times".into(), "class_game-with-reused-context".into(), "class_all-successors-already-seen-twice".into()];
     rep.finish(&sink)
 }
 
@@ -345,7 +369,7 @@ pub fn replay(v: &serde_json::Value) -> i32 {
             history.push(m);
         }
     }
-    let c = Case { pos, depth: v["extra"]["depth"].as_u64().unwrap_or(1) as u8, pool: v["extra"]["pool"].as_u64().unwrap_or(0) as usize, class: "replay", registered: v["extra"]["registered"].as_u64().unwrap_or(0) as u8, history };
+    let c = Case { pos, depth: v["extra"]["depth"].as_u64().unwrap_or(1) as u8, pool: v["extra"]["pool"].as_u64().unwrap_or(0) as usize, class: "replay", registered: v["extra"]["registered"].as_u64().unwrap_or(0) as u8, history, successors_seen_twice: v["extra"]["successors_seen_twice"].as_bool().unwrap_or(false) };
     let pools: Vec<(usize, rayon::ThreadPool)> = if c.pool > 0 { vec![(c.pool, rayon::ThreadPoolBuilder::new().num_threads(c.pool).build().unwrap())] } else { vec![] };
     let a = check_case(&c, &pools).0.map(|x| x.class);
     let b = check_case(&c, &pools).0.map(|x| x.class);
